@@ -34,7 +34,17 @@ type C19Replay struct {
 	Clause string                `json:"clause"`
 }
 
+// stateChange: a component of a package variable changed while a task was in a call.
+type stateChange struct {
+	global int
+	comp   uintptr
+	root   int
+	call   int
+	objs   map[any]bool
+}
+
 type c19Run struct {
+	changes   []stateChange
 	results   [][]Result
 	findings  map[string]string
 	sched     *simrt.Sched
@@ -42,6 +52,7 @@ type c19Run struct {
 	accYields []int
 	stateSync int
 	stalled   bool
+	unowned   bool
 	overrun   bool
 	evHash    uint64
 	siteIDs   []int
@@ -96,6 +107,7 @@ func runTasks(tasks []C19Task, s *simrt.Sched, only int) *c19Run {
 				spec := opByName[c.Op]
 				cur := simrt.CurTask()
 				cur.CallIdx = callBase[ti] + ci
+				cur.SyncObjs = nil
 				syncAtCall[cur.ID] = cur.SyncOps
 				callClock := cur.Clock()
 				if spec == nil {
@@ -149,16 +161,14 @@ func runTasks(tasks []C19Task, s *simrt.Sched, only int) *c19Run {
 			if len(changed) == 0 {
 				continue
 			}
-			// feed the change into the vector-clock monitor as a write at the earliest moment
-			// it can have happened (start of this step)
-			if vid, ok := varIDByName[simrt.Globals[i].Name]; ok {
-				c := stepClock[ran.ID]
-				if c == 0 {
-					c = 1
-				}
-				for _, comp := range changed {
-					s.SyntheticWrite(ran, vid, comp, c, ran.LastSite())
-				}
+			// remember who changed which component, and which synchronisation objects that task
+			// has touched in the call so far
+			objs := map[any]bool{}
+			for o := range ran.SyncObjs {
+				objs[o] = true
+			}
+			for _, comp := range changed {
+				run.changes = append(run.changes, stateChange{global: i, comp: comp, root: ran.Root, call: ran.CallIdx, objs: objs})
 			}
 			if ran.SyncOps == syncAtCall[ran.ID] {
 				if _, dup := run.findings["package-state-modified-without-synchronisation"]; !dup {
@@ -182,11 +192,38 @@ func runTasks(tasks []C19Task, s *simrt.Sched, only int) *c19Run {
 	simrt.Active = true
 	ok := s.Run(25 * time.Second)
 	simrt.Active = false
-	if !ok {
+	if !ok || s.UnownedSeen {
 		run.stalled = true
+		run.unowned = s.UnownedSeen || s.Unowned()
 		return run
 	}
 	run.overrun = s.Overrun
+	// two tasks changed the same component of a package variable and the calls in which they
+	// did share no synchronisation object: whatever each of them locked, it was not the same
+	// thing (a mutex locked on a copy, two different locks for one datum)
+	for i := 0; i < len(run.changes) && run.findings["package-state-changed-by-two-tasks-without-common-synchronisation"] == ""; i++ {
+		for j := i + 1; j < len(run.changes); j++ {
+			a, b := run.changes[i], run.changes[j]
+			if a.root == b.root || a.global != b.global || !(a.comp == b.comp || a.comp == 0 || b.comp == 0) {
+				continue
+			}
+			common := false
+			for o := range a.objs {
+				if b.objs[o] {
+					common = true
+					break
+				}
+			}
+			if !common && len(a.objs) > 0 && len(b.objs) > 0 {
+				run.findings["package-state-changed-by-two-tasks-without-common-synchronisation"] = fmt.Sprintf("package-level variable %s was changed by task %d in call %d (%s) and by task %d in call %d (%s); each call used synchronisation primitives, but no primitive was common to both",
+					simrt.Globals[a.global].Name, a.root, a.call, callName(tasks, a.call), b.root, b.call, callName(tasks, b.call))
+				break
+			}
+		}
+	}
+	if s.Unowned() {
+		run.unowned = true
+	}
 	if s.Deadlock {
 		run.findings["deadlock"] = "no task runnable although not all tasks finished (all blocking is through simulated primitives)"
 	}
@@ -236,6 +273,7 @@ type c19Eval struct {
 	sites      []int
 	overrun    bool
 	orderOnly  int
+	unownedStall bool
 }
 
 // orderedOps: set-op catalogue entries whose output order is part of their contract.
@@ -275,6 +313,7 @@ func evalC19(tasks []C19Task, mk func(solo []*c19Run) *simrt.Sched) *c19Eval {
 		}
 		if s1.stalled || s2.stalled {
 			ev.stalled = true
+			ev.unownedStall = s1.unowned || s2.unowned
 			return ev
 		}
 		for ci := range s1.results[ti] {
@@ -308,6 +347,7 @@ func evalC19(tasks []C19Task, mk func(solo []*c19Run) *simrt.Sched) *c19Eval {
 	}
 	if in.stalled {
 		ev.stalled = true
+		ev.unownedStall = in.unowned
 		return ev
 	}
 	for k, v := range in.findings {
@@ -461,12 +501,21 @@ func (w *Worker) runC19Case(idx int64) {
 		return s
 	}
 	ev := evalC19(tasks, mk)
+	if ev.stalled && ev.unownedStall {
+		w.St.Extra["unowned_goroutines_seen"]++
+		w.St.Errors = append(w.St.Errors, fmt.Sprintf("C19 case %d: goroutines the simulator did not start are running (a dependency or an unrewritten construct starts them); lane A stopped in this worker", idx))
+		w.stop = true
+		return
+	}
 	if ev.stalled {
 		fmt.Fprintf(os.Stderr, "STALL: C19 case %d (seed %d): a task blocked in a construct the simulator does not own\n", idx, w.Seed)
 		w.St.Errors = append(w.St.Errors, fmt.Sprintf("STALL in C19 case %d: a task blocked in a construct the simulator does not own (channel, select, Cond, timer) or ran away; worker stopped", idx))
 		w.St.Extra["stalled_workers"]++
 		w.stop = true
 		return
+	}
+	if ev.inter != nil && ev.inter.unowned {
+		w.St.Extra["unowned_goroutines_seen"]++
 	}
 	in := ev.inter
 	if ev.overrun {
@@ -519,9 +568,9 @@ func (w *Worker) runC19Case(idx int64) {
 		rp := runTasks(tasks, simrt.NewReplaySched(in.sched.Decisions), -1)
 		w.St.Rechecks++
 		if rp.evHash != in.evHash {
+			// not fatal: the tree may contain nondeterminism the simulator does not own (sync.Pool
+			// hits, state that cannot be reset); every violation is replay-confirmed anyway
 			w.St.RecheckBad++
-			fmt.Fprintf(os.Stderr, "DETERMINISM: C19 case %d (seed %d) did not replay to the same event hash\n", idx, w.Seed)
-			os.Exit(3)
 		}
 	}
 	for _, cl := range sortedKeys(ev.clauses) {
